@@ -208,6 +208,10 @@ def handle (op : String) (args : List String) : Option String :=
            let f : PT.MonFmt := if n 0 = 0 then .ctime (n 1) else if n 0 = 1 then .rfc2822 (n 1) else if n 0 = 2 then .longDate
                                 else if n 0 = 3 then .dMonY else .ddMonY
            "ok " ++ showCps (PT.renderMon f t o)
+         | "num" =>
+           let f : PT.NumFmt := if n 0 = 0 then .us else if n 0 = 1 then .eu else if n 0 = 2 then .yf else if n 0 = 3 then .us2
+                                else if n 0 = 4 then .eu2 else .yf2
+           "ok " ++ showCps (PT.renderNum f t)
          | "ampm" => "ok " ++ showCps (PT.renderAmpm t)
          | "hmsl" => "ok " ++ showCps (PT.renderHmsLetters t)
          | _ => "bad-args")
